@@ -48,7 +48,7 @@ NodeInit(e) ==
      pend |-> NoMsg, psrc |-> PlaceholderAddr,
      step |-> [open |-> FALSE],
      issued |-> {}, acked |-> <<>>, refused |-> {},
-     usedpfx |-> {}, heard |-> <<>>,
+     usedpfx |-> {}, heard |-> <<>>, sentpairs |-> {},
      lk |-> <<>>, pendSearch |-> <<>>, sidAid |-> <<>>, closed |-> <<>>, yields |-> <<>>, started |-> <<>>,
      rounds |-> <<>>, succ |-> <<>>,
      answered |-> FALSE, waits |-> <<>>, qsent |-> 0, started_at |-> now, bootstate |-> "AwaitStart",
@@ -165,6 +165,97 @@ BagHas(b, x) == x \in DOMAIN b /\ b[x] > 0
 BagDec(b, x) == [b EXCEPT ![x] = @ - 1]
 BagEmpty(b) == \A x \in DOMAIN b : b[x] = 0
 
+
+\* ------------------------------------------------------------------ closest nodes of the declared universe (C02)
+RECURSIVE PickClosest(_, _, _, _)
+PickClosest(cands, target, k, acc) ==
+    IF k = 0 \/ cands = {} THEN acc
+    ELSE LET best == CHOOSE c \in cands : \A d \in cands : c = d \/ ~Closer160(target, d.id, c.id) IN
+         PickClosest(cands \ {best}, target, k - 1, acc \cup {best.addr})
+UniverseClosest8(target, fam) ==
+    PickClosest({u \in {G.universe[i] : i \in 1..Len(G.universe)} : u.addr.fam = fam /\ u.mode = "Answer"}, target, 8, {})
+
+SeqBag(s) == BagAdd(<<>>, s)
+
+ApiSearchStep(e) ==
+    LET nd == Nd(e) IN
+    /\ Upd(e, [nd EXCEPT !.pendSearch = Append(@, [sid |-> e.sid, ih |-> e.ih, announce |-> e.announce, at |-> now]),
+                         !.yields = FSet(@, e.sid, <<>>)])
+    /\ UNCHANGED G
+
+LookupQueuedStep(e) ==
+    /\ Chk("C16", "searches-are-queued-only-before-the-initial-bootstrap-completed", l, Len(Nd(e).succ) = 0)
+    /\ UNCHANGED <<S, G>>
+
+LookupStartStep(e) ==
+    LET nd == Nd(e)
+        cand == {i \in 1..Len(nd.pendSearch) : nd.pendSearch[i].ih = e.target /\ nd.pendSearch[i].announce = e.announce}
+        i == IF cand = {} THEN 0 ELSE SetMin(cand)
+        sid == IF i = 0 THEN -1 ELSE nd.pendSearch[i].sid IN
+    /\ Chk("C19", "live-activities-have-distinct-prefixes", l, e.aid \notin nd.usedpfx)
+    /\ Chk("C16", "a-search-starts-only-after-the-initial-bootstrap", l, Len(nd.succ) > 0)
+    /\ Chk("C16", "lookup-corresponds-to-a-requested-search", l, i # 0)
+    /\ Upd(e, [nd EXCEPT !.lk = FSet(@, e.aid, [NewLookup(e) EXCEPT !.sid = sid]),
+                         !.usedpfx = @ \cup {e.aid},
+                         !.sidAid = IF i = 0 THEN @ ELSE FSet(@, sid, e.aid),
+                         !.pendSearch = IF i = 0 THEN @ ELSE [j \in 1..(Len(@) - 1) |-> IF j < i THEN @[j] ELSE @[j + 1]]])
+    /\ UNCHANGED G
+
+Outstanding(lk) == {t \in DOMAIN lk.q : lk.q[t].ok /\ ~lk.q[t].answered}
+
+EndgameStep(e) ==
+    LET nd == Nd(e)  lk == nd.lk[e.aid] IN
+    /\ Chk("C04", "end-game-starts-only-when-no-query-is-outstanding", l,
+           lk.failed > 0 \/ \A t \in Outstanding(lk) : now - lk.q[t].at >= 1500)
+    /\ Upd(e, [nd EXCEPT !.lk[e.aid].eg = now]) /\ UNCHANGED G
+
+LookupDoneStep(e) ==
+    LET nd == Nd(e)  lk == nd.lk[e.aid]
+        sent == {t \in DOMAIN lk.q : lk.q[t].ok}
+        t0 == IF sent = {} THEN now ELSE SetMin({lk.q[t].at : t \in sent}) IN
+    /\ Chk("C04", "no-query-younger-than-1.5s-is-outstanding-when-the-search-ends", l,
+           lk.failed > 0 \/ \A t \in Outstanding(lk) : now - lk.q[t].at >= 1500)
+    /\ Chk("C04", "search-ends-within-1.5s-per-node-plus-3s", l, now <= t0 + 1500 * Cardinality(lk.told) + 3000 + SLACK)
+    /\ Chk("C04", "silent-network-closes-3s-after-the-first-query", l,
+           (lk.consumed = 0 /\ sent # {} /\ lk.failed = 0) => (now >= t0 + 3000 /\ now <= t0 + 3000 + SLACK))
+    /\ Chk("C04", "no-good-node-closes-immediately", l, (DOMAIN lk.q = {}) => now = lk.at)
+    /\ Chk("C03", "announces-only-at-the-end-of-the-search", l, TRUE)
+    /\ Upd(e, [nd EXCEPT !.lk[e.aid].done = TRUE, !.lk[e.aid].doneAt = now]) /\ UNCHANGED G
+
+YieldStep(e) ==
+    LET nd == Nd(e)
+        known == e.sid \in DOMAIN nd.sidAid
+        aid == nd.sidAid[e.sid] IN
+    /\ Chk("C03", "yield-belongs-to-a-started-search", l, known)
+    /\ known => Chk("C03", "yielded-address-was-in-a-response-to-an-outstanding-query-of-this-search", l, BagHas(nd.lk[aid].budget, e.addr))
+    /\ Upd(e, [nd EXCEPT !.yields = FSet(@, e.sid, Append(FGet(@, e.sid, <<>>), e.addr)),
+                         !.lk = IF known /\ BagHas(nd.lk[aid].budget, e.addr) THEN [@ EXCEPT ![aid].budget = BagDec(@, e.addr)] ELSE @])
+    /\ UNCHANGED G
+
+ClosedStep(e) ==
+    LET nd == Nd(e)
+        known == e.sid \in DOMAIN nd.sidAid
+        aid == nd.sidAid[e.sid]
+        lk == nd.lk[aid] IN
+    /\ Chk("C16", "a-requested-search-is-carried-out-not-dropped", l, known)
+    /\ known =>
+          /\ Chk("C04", "stream-closes-exactly-when-the-search-is-done", l, lk.done /\ now <= lk.doneAt + SLACK)
+          /\ (G.coop => Chk("C02", "every-peer-of-every-answer-was-delivered-once-per-occurrence", l, BagEmpty(lk.budget)))
+          /\ (G.coop /\ lk.announce) =>
+                 Chk("C02", "announced-to-exactly-the-8-closest-nodes", l, lk.anndst = UniverseClosest8(lk.target, nd.fam))
+    /\ Upd(e, [nd EXCEPT !.closed = FSet(@, e.sid, now)])
+    /\ UNCHANGED G
+
+EndStep(e) ==
+    /\ \A n \in DOMAIN S :
+          /\ Chk("C04", "every-search-ends", l, S[n].pendSearch = <<>> /\ DOMAIN S[n].sidAid \subseteq DOMAIN S[n].closed)
+          /\ Chk("C16", "every-requested-search-was-started", l, S[n].pendSearch = <<>>)
+    /\ \A i \in 1..Len(G.twins) :
+          LET tw == G.twins[i]  nd == S[tw.node] IN
+          Chk("C16", "early-search-yields-what-the-same-search-after-bootstrap-yields", l,
+              SeqBag(FGet(nd.yields, tw.a, <<>>)) = SeqBag(FGet(nd.yields, tw.b, <<>>)))
+    /\ UNCHANGED <<S, G>>
+
 \* ------------------------------------------------------------------ steps
 IsNode(e) == Has(e, "node") /\ e.node \in DOMAIN S
 
@@ -181,13 +272,14 @@ SendStep(e) ==
     /\ Chk("C05", "replies-only-inside-the-step-of-a-query", l,
            IsReply(m) => (inStep /\ nd.step.kind = "incoming" /\ ~NotAQuery(nd.step.m)))
     /\ Chk("C19", "queries-carry-8-byte-transaction-ids", l, isq => m.tl = 8)
+    /\ Chk("C19", "a-transaction-id-is-never-used-twice-towards-the-same-address", l, isq => <<e.dst, m.t>> \notin nd.sentpairs)
     /\ Chk("C15", "no-contacts-no-queries", l, (isq /\ nd.contacts = {}) => FALSE)
     /\ IF islk /\ m.q = "get_peers"
        THEN /\ Chk("C03", "get_peers-for-the-searched-info-hash", l, m.a.info_hash = lk.target /\ m.a.id = nd.id)
             /\ Chk("C19", "transaction-id-fresh-within-the-search", l, m.t \notin DOMAIN lk.q)
             /\ Chk("C04", "no-query-after-the-search-finished", l, ~lk.done)
-            /\ Upd(e, [nd EXCEPT !.step = st2, !.usedpfx = @ \cup {aid}, !.qsent = @ + 1,
-                        !.lk[aid].q = FSet(lk.q, m.t, [dst |-> e.dst, at |-> now, answered |-> FALSE, ok |-> e.ok]),
+            /\ Upd(e, [nd EXCEPT !.step = st2, !.usedpfx = @ \cup {aid}, !.qsent = @ + 1, !.sentpairs = @ \cup {<<e.dst, m.t>>},
+                        !.lk[aid].q = FSet(lk.q, m.t, [dst |-> e.dst, at |-> now, answered |-> FALSE, timedout |-> FALSE, ok |-> e.ok]),
                         !.lk[aid].told = @ \cup {e.dst},
                         !.lk[aid].failed = @ + (IF e.ok THEN 0 ELSE 1)])
        ELSE IF islk /\ m.q = "announce_peer"
@@ -198,9 +290,10 @@ SendStep(e) ==
             /\ Chk("C03", "at-most-8-announces-per-search", l, lk.nann < 8)
             /\ Chk("C02", "announce-port-as-configured", l,
                    IF nd.aport = -1 THEN m.a.implied ELSE (~m.a.implied /\ m.a.port = nd.aport))
-            /\ Upd(e, [nd EXCEPT !.step = st2, !.usedpfx = @ \cup {aid}, !.qsent = @ + 1,
+            /\ Upd(e, [nd EXCEPT !.step = st2, !.usedpfx = @ \cup {aid}, !.qsent = @ + 1, !.sentpairs = @ \cup {<<e.dst, m.t>>},
                         !.lk[aid].nann = @ + 1, !.lk[aid].anndst = @ \cup {e.dst}])
-       ELSE Upd(e, [nd EXCEPT !.step = st2, !.usedpfx = IF isq THEN @ \cup {aid} ELSE @, !.qsent = @ + (IF isq THEN 1 ELSE 0)])
+       ELSE Upd(e, [nd EXCEPT !.step = st2, !.usedpfx = IF isq THEN @ \cup {aid} ELSE @, !.qsent = @ + (IF isq THEN 1 ELSE 0),
+                             !.sentpairs = IF isq THEN @ \cup {<<e.dst, m.t>>} ELSE @])
     /\ UNCHANGED G
 
 RecvStep(e) ==
@@ -221,14 +314,6 @@ SockRecvStep(e) ==
     /\ Chk("C13", "well-formed-query-is-decodable", l, ~(e.routed = "undecodable" /\ WellFormedQuery(nd.pend)))
     /\ Upd(e, [nd EXCEPT !.pend = NoMsg]) /\ UNCHANGED G
 
-HStepStep(e) ==
-    LET nd == Nd(e)
-        m == IF e.kind = "incoming" THEN nd.pend ELSE NoMsg IN
-    /\ Chk("C14", "steps-do-not-nest", l, ~nd.step.open)
-    /\ Upd(e, [nd EXCEPT !.step = [open |-> TRUE, kind |-> e.kind, what |-> e.what, m |-> m, src |-> nd.psrc, sends |-> <<>>, pre |-> nd.t],
-                         !.pend = NoMsg])
-    /\ UNCHANGED G
-
 \* a response reaching the handler: which lookup consumes it (if any)
 ConsumeResponse(nd, m, src) ==
     LET aid == m.pfx IN
@@ -242,6 +327,24 @@ ConsumeResponse(nd, m, src) ==
                     !.lk[aid].told = @ \cup {named[i].addr : i \in 1..Len(named)},
                     !.lk[aid].toks = IF m.r.tokenl >= 0 /\ m.r.idl = 20 THEN FSet(lk.toks, <<m.r.id, src>>, m.r.token) ELSE lk.toks]
     ELSE nd
+
+HStepStep(e) ==
+    LET nd0 == Nd(e)
+        m == IF e.kind = "incoming" THEN nd0.pend ELSE NoMsg
+        \* a response handed to the handler is consumed by the search whose outstanding query it answers (if any)
+        \* a query whose 1.5 s time-out fires is no longer outstanding
+        pfx == IF e.kind = "timer" /\ e.what = "LookupTimeout" THEN SubSeq(e.tid, 1, 10) ELSE ""
+        nd == IF e.kind = "incoming" THEN ConsumeResponse(nd0, m, nd0.psrc)
+              ELSE IF pfx # "" /\ pfx \in DOMAIN nd0.lk /\ e.tid \in DOMAIN nd0.lk[pfx].q
+                   THEN [nd0 EXCEPT !.lk[pfx].q[e.tid].answered = TRUE, !.lk[pfx].q[e.tid].timedout = TRUE]
+                   ELSE nd0 IN
+    /\ Chk("C14", "steps-do-not-nest", l, ~nd0.step.open)
+    /\ (pfx # "" /\ pfx \in DOMAIN nd0.lk /\ e.tid \in DOMAIN nd0.lk[pfx].q) =>
+            Chk("C04", "a-query-times-out-1.5s-after-it-was-sent", l,
+                now - nd0.lk[pfx].q[e.tid].at >= 1500 /\ now - nd0.lk[pfx].q[e.tid].at <= 1500 + SLACK)
+    /\ Upd(e, [nd EXCEPT !.step = [open |-> TRUE, kind |-> e.kind, what |-> e.what, m |-> m, src |-> nd0.psrc, sends |-> <<>>, pre |-> nd0.t],
+                         !.pend = NoMsg])
+    /\ UNCHANGED G
 
 Unsolicited(nd, m) == m.y = "r" /\ (m.tl # 8 \/ m.pfx \notin nd.usedpfx)
 
@@ -265,7 +368,7 @@ HEndStep(e) ==
         isIncoming == st.open /\ st.kind = "incoming"
         sends == IF st.open THEN st.sends ELSE <<>>
         replies == SelectSeq(sends, LAMBDA x : IsReply(x.m))
-        nd1 == IF isIncoming THEN ConsumeResponse(nd0, m, src) ELSE nd0
+        nd1 == nd0
         nd2 == IF isIncoming /\ serving /\ WellFormedQuery(m) /\ Len(sends) = 1 /\ sends[1].ok
                THEN Effects(nd1, m, src, sends[1]) ELSE nd1 IN
     /\ Chk("C14", "step-was-open", l, st.open \/ ~e.running)
@@ -297,6 +400,18 @@ Step(e) ==
       [] e.ev = "HStep" -> HStepStep(e)
       [] e.ev = "HEnd" -> HEndStep(e)
       [] e.ev \in {"BootState", "BootMsg", "BootSent"} -> IF Has(e, "ch") THEN WorkerTable(e) ELSE UNCHANGED <<S, G>>
+      [] e.ev = "Universe" -> G' = [G EXCEPT !.universe = e.nodes] /\ UNCHANGED S
+      [] e.ev = "Scenario" -> G' = [G EXCEPT !.coop = e.coop] /\ UNCHANGED S
+      [] e.ev = "Twin" -> G' = [G EXCEPT !.twins = Append(@, [node |-> e.node, a |-> e.a, b |-> e.b])] /\ UNCHANGED S
+      [] e.ev = "ApiSearch" -> ApiSearchStep(e)
+      [] e.ev = "LookupQueued" -> LookupQueuedStep(e)
+      [] e.ev = "LookupStart" -> LookupStartStep(e)
+      [] e.ev = "Endgame" -> EndgameStep(e)
+      [] e.ev = "LookupDone" -> LookupDoneStep(e)
+      [] e.ev = "Yield" -> YieldStep(e)
+      [] e.ev = "Closed" -> ClosedStep(e)
+      [] e.ev = "End" -> EndStep(e)
+      [] e.ev = "BootSuccess" -> Upd(e, [Nd(e) EXCEPT !.succ = Append(@, now)]) /\ UNCHANGED G
       [] e.ev \in {"ApiState", "ApiContacts", "ApiLocalAddr"} ->
             /\ Chk("C14", "api-call-completes", l, e.alive)
             /\ Chk("C15", "node-stays-alive", l, e.alive)
